@@ -95,6 +95,25 @@ class DispatchStation(VehicleState):
             msg = f"vehicle {vehicle.id} and station {station.id} don't share a membership"
             return SimulationStateError(msg), None
         else:
+            # what the charging (or queueing) activity will insist on at arrival and that cannot
+            # change on the way: the station has this plug type and the vehicle can use it.
+            # a vehicle sent on its way without it would fail the arrival hand-over in every step
+            # and stay in this state, at the station, for good.
+            mechatronics = env.mechatronics.get(vehicle.mechatronics_id)
+            charger_err, charger = station.get_charger_instance(self.charger_id)
+            if mechatronics is None:
+                return (
+                    SimulationStateError(f"unknown mechatronics id {vehicle.mechatronics_id}"),
+                    None,
+                )
+            elif charger_err is not None:
+                return charger_err, None
+            elif charger is None:
+                return None, None
+            elif not mechatronics.valid_charger(charger):
+                msg = f"vehicle {vehicle.id} of type {vehicle.mechatronics_id} can't use charger {charger.id}"
+                return SimulationStateError(msg), None
+
             result = VehicleState.apply_new_vehicle_state(sim, self.vehicle_id, self)
             return result
 
